@@ -21,6 +21,9 @@ import numpy as np
 VERIF = Path(__file__).resolve().parent.parent
 LEAN = VERIF / "lean"
 REPO = Path(os.environ.get("VERIF_REPO", "/repo"))
+# The package is an editable install of /repo; an alternative tree (scratch worktree) is put first on sys.path.
+if str(REPO / "src") not in sys.path:
+    sys.path.insert(0, str(REPO / "src"))
 DRIVER = LEAN / ".lake" / "build" / "bin" / "nssdriver"
 ALLOWED_AXIOMS = {"propext", "Classical.choice", "Quot.sound"}
 FORBIDDEN = re.compile(
@@ -166,6 +169,24 @@ def theorem_at(path: Path, line: int) -> str:
     return name
 
 
+def write_if_changed(path: Path, text: str) -> bool:
+    if path.exists() and path.read_text() == text:
+        return False
+    tmp = path.with_suffix(path.suffix + ".tmp")
+    tmp.write_text(text)
+    tmp.replace(path)
+    return True
+
+
+def regen_ops_index():
+    """Driver/Ops.lean is generated: it concatenates the `ops` list of every Driver/Ops/*.lean."""
+    mods = sorted(p.stem for p in (LEAN / "Driver" / "Ops").glob("*.lean"))
+    src = "import Driver.Proto\n" + "".join(f"import Driver.Ops.{m}\n" for m in mods)
+    src += "\n/-! GENERATED by harness/common.py (regen_ops_index): all driver operations. -/\nnamespace Driver\n"
+    src += "def allOps : List (String × Proto.Handler) :=\n  " + " ++ ".join(f"{m}.ops" for m in mods) + "\nend Driver\n"
+    write_if_changed(LEAN / "Driver" / "Ops.lean", src)
+
+
 def lake_build(targets: list[str], regen=None) -> BuildResult:
     """Regenerate Gen/* from /repo, then `lake build` the given targets under a lock."""
     res = BuildResult()
@@ -173,6 +194,7 @@ def lake_build(targets: list[str], regen=None) -> BuildResult:
     lock = open(LEAN / ".verif.lock", "w")
     fcntl.flock(lock, fcntl.LOCK_EX)
     try:
+        regen_ops_index()
         if regen is not None:
             res.regen = regen()
         p = subprocess.run(
@@ -347,7 +369,7 @@ def main_for(prop: str, module, argv=None):
     ev_path = VERIF / "evidence" / f"{prop}.json"
     try:
         if replay is not None:
-            return module.replay(ctx, json.loads(Path(replay).read_text()))
+            return _replay(prop, module, json.loads(Path(replay).read_text()))
         return _run(prop, module, ctx, t0, ev_path)
     except InfraError as e:
         print(f"INFRA-ERROR property={prop}: {e}")
@@ -356,6 +378,25 @@ def main_for(prop: str, module, argv=None):
         traceback.print_exc()
         print(f"INFRA-ERROR property={prop}: unexpected exception in the harness")
         return 2
+
+
+def _replay(prop, module, data: dict) -> int:
+    """Deterministic replay: re-run the recorded seed/tier against the real code and report whether the recorded
+    violation classes recur (exit 1) or not (exit 0)."""
+    if hasattr(module, "replay"):
+        return module.replay(data)
+    ctx = Ctx(prop, data.get("tier", "quick"), int(data.get("seed", 0)))
+    ctx.driver_ok = DRIVER.exists()
+    module.run(ctx)
+    want = {(v["site"], v["class"]) for v in data.get("violations", [])}
+    got = {(v["site"], v["class"]) for v in ctx.violations}
+    for v in ctx.violations:
+        if (v["site"], v["class"]) in want or not want:
+            print(f"REPRODUCED [{v['site']} / {v['class']}]: {v['what']} :: {json.dumps(jsonable(v['case']))[:400]}")
+    if want & got or (not want and (got or ctx.disagreements)):
+        return 1
+    print("not reproduced on the current tree")
+    return 0
 
 
 def _run(prop, module, ctx: Ctx, t0, ev_path: Path) -> int:
